@@ -194,6 +194,8 @@ class Glue:
         hdr = ("// GENERATED by /verif/tools/render_glue.py from /repo (cfg %s). Do not edit.\n"
                "#![allow(clippy::all, dead_code, unused_imports)]\n"
                "use crate::support::*;\nuse crate::val::V;\n\n" % sj["cfg"])
+        # private types cannot be named from outside the crate: no glue for them (nor for their users)
+        self.types = {k: t for k, t in self.types.items() if t["rust"].get("pub", True)}
         for key, t in self.types.items():
             self.gen_dump(key, t)
             self.gen_build(key, t)
